@@ -1,0 +1,11 @@
+//go:build verif
+
+// Contracts for package client, checked by /verif/govc (comment-only; not part of any normal build).
+
+package client
+
+//@ func (*StrictHTTPClient).Do
+//@   prop C20
+//@   call (*http.Client).Do #1 requires !StrictMode || req.URL.Scheme == "https"
+//@   cover call (*http.Client).Do #1
+//@   ensures [strict-refuses-plain-http] old(StrictMode) && old(req.URL.Scheme) != "https" ==> !isNilIface(result.1)
